@@ -60,14 +60,14 @@ fn judge_fault(sc: &Scenario, ex: &mut Exec, kind: K, idx: u64, errno: i32, fire
                 // every lookup through a fresh handle must return the new value
                 // ESTALE/ENOENT on the existence probe is documented as
                 // absence: the probed copy then legitimately stays behind
-                let probe_absent = absent_errno && matches!(kind, K::Stat);
+                let probe_absent = absent_errno && matches!(kind, K::Stat | K::Lstat);
                 if wtags != vec![new_tag.unwrap()] && !(probe_absent && wtags.contains(&new_tag.unwrap())) {
                     return mk("masked-set", format!("set reported success although {:?} #{} failed with {}, but the write side now holds {:?} (a lookup will not return the new value)", kind, idx, errno_name(errno), wr.iter().map(|x| (&x.0, x.1)).collect::<Vec<_>>()));
                 }
             }
             (Op::Put { .. } | Op::PutTemp { .. }, _) => {
                 let ok = wtags.len() == 1 && (Some(wtags[0]) == new_tag || Some(wtags[0]) == sc.pre_writer);
-                let probe_absent = absent_errno && matches!(kind, K::Stat);
+                let probe_absent = absent_errno && matches!(kind, K::Stat | K::Lstat);
                 if !ok && !(probe_absent && !wtags.is_empty()) {
                     return mk("masked-put", format!("put reported success although {:?} #{} failed with {}, but the write side holds {:?}", kind, idx, errno_name(errno), wr.iter().map(|x| (&x.0, x.1)).collect::<Vec<_>>()));
                 }
@@ -103,7 +103,7 @@ fn judge_fault(sc: &Scenario, ex: &mut Exec, kind: K, idx: u64, errno: i32, fire
         }
     }
     let _ = rd;
-    if wr.len() > 1 && absent_errno && matches!(kind, K::Stat) {
+    if wr.len() > 1 && absent_errno && matches!(kind, K::Stat | K::Lstat) {
         // two copies after an existence probe that reported absence: the
         // documented treatment of ESTALE/ENOENT; nothing more to ask
         return None;
@@ -235,7 +235,7 @@ impl Check for C18 {
                 let first = &hits[0];
                 let any_absent = hits.iter().any(|h| h.3 == libc::ENOENT || h.3 == libc::ESTALE);
                 let any_fsync = hits.iter().any(|h| matches!(h.2, K::Fsync | K::Fdatasync));
-                let v = if any_absent || any_fsync || hits.iter().any(|h| h.2 == K::Stat) {
+                let v = if any_absent || any_fsync || hits.iter().any(|h| matches!(h.2, K::Stat | K::Lstat)) {
                     // provisos of the single-fault oracle (absence errnos,
                     // documented flush panic, probe) are not combined here
                     None
